@@ -894,7 +894,9 @@ func (s *session) redialForClient(oldConn net.Conn) bool {
 	// Avoid repeated calls from write and readDisconnected methods
 	verifGate("redial.afterLock", s)
 	if oldConn != s.getConn() {
-		return true
+		// somebody else has redialed meanwhile (the session lock is held, so that round is over):
+		// report its outcome - a failed round also leaves its last connection installed
+		return s.checkStatus(statusOk)
 	}
 	if s.tryChangeStatus(statusRedialing, statusOk, statusPassiveClosing, statusPassiveClosed, statusRedialFailed) {
 		verifGate("redial.afterCAS", s)
